@@ -10,6 +10,7 @@ FILES = ['rqalpha/apis/api_base.py', 'rqalpha/apis/api_abstract.py', 'rqalpha/mo
          'rqalpha/mod/rqalpha_mod_sys_accounts/api/api_future.py']
 SCHED = 'rqalpha/mod/rqalpha_mod_sys_scheduler/scheduler.py'
 EXECUTOR = 'rqalpha/core/executor.py'
+STRATEGY = 'rqalpha/core/strategy.py'
 PH = {'ON_INIT': 'XOnInit', 'BEFORE_TRADING': 'XBeforeTrading', 'OPEN_AUCTION': 'XOpenAuction', 'ON_BAR': 'XOnBar', 'ON_TICK': 'XOnTick',
       'AFTER_TRADING': 'XAfterTrading', 'SCHEDULED': 'XScheduled', 'GLOBAL': 'XGlobal', 'FINALIZED': 'XFinalized'}
 
@@ -67,6 +68,40 @@ def generate(repo):
                 split.append((ast.unparse(k).replace('EVENT.', ''), [ast.unparse(x).replace('EVENT.', '') for x in v.elts]))
     if split is None:
         raise Unsupported('EVENT_SPLIT_MAP not found')
+    # Strategy.wrap_user_event_handler: in which phase a handler registered with subscribe_event runs
+    tree = ast.parse(open(os.path.join(repo, STRATEGY)).read())
+    table, fallback, seen = [], None, False
+    for c in tree.body:
+        if isinstance(c, ast.ClassDef) and c.name == 'Strategy':
+            for n in c.body:
+                if isinstance(n, ast.Assign) and ast.unparse(n.targets[0]) == '_EVENT_PHASE':
+                    if not isinstance(n.value, ast.Dict):
+                        raise Unsupported('_EVENT_PHASE is not a dict literal')
+                    for k, v in zip(n.value.keys, n.value.values):
+                        kt, vt = ast.unparse(k), ast.unparse(v)
+                        if not kt.startswith('EVENT.') or not vt.startswith('EXECUTION_PHASE.') or vt.split('.')[1] not in PH:
+                            raise Unsupported('_EVENT_PHASE entry %s: %s' % (kt, vt))
+                        table.append((kt[len('EVENT.'):], PH[vt.split('.')[1]]))
+                if isinstance(n, ast.FunctionDef) and n.name == 'wrap_user_event_handler':
+                    inner = [x for x in n.body if isinstance(x, ast.FunctionDef)]
+                    if len(inner) != 1:
+                        raise Unsupported('wrap_user_event_handler: shape')
+                    body = inner[0].body
+                    withs = [x for x in ast.walk(inner[0]) if isinstance(x, ast.With) and 'ExecutionContext(' in ast.unparse(x.items[0].context_expr)]
+                    if len(withs) != 1:
+                        raise Unsupported('wrap_user_event_handler: execution context')
+                    ctx = ast.unparse(withs[0].items[0].context_expr)
+                    pre = [ast.unparse(x) for x in body if not isinstance(x, ast.With)]
+                    if ctx == 'ExecutionContext(EXECUTION_PHASE.GLOBAL)' and not pre:
+                        table, fallback = [], False          # every handler forced into GLOBAL
+                    elif ctx == 'ExecutionContext(phase)' and pre == ['phase = self._EVENT_PHASE.get(event.event_type)',
+                                                                      'if phase is None:\n    phase = ExecutionContext.phase()']:
+                        fallback = True
+                    else:
+                        raise Unsupported('wrap_user_event_handler: %s / %s' % (ctx, pre))
+                    seen = True
+    if not seen or fallback is None:
+        raise Unsupported('wrap_user_event_handler not found')
     out = ['(* generated from the enforce_phase decorators of %s, %s and %s -- do not edit *)' % (', '.join(FILES), SCHED, EXECUTOR),
            'From Coq Require Import List String Bool.', 'From RQ Require Import Model.Phases.', 'Import ListNotations.', 'Open Scope string_scope.', '']
     out.append('Definition api_phases : list (string * option (list xphase)) := [')
@@ -76,6 +111,8 @@ def generate(repo):
     out.append('Definition event_split : list (string * list string) := [')
     out.append(';\n'.join('  ("%s", [%s])' % (k, '; '.join('"%s"' % x for x in v)) for k, v in split))
     out.append('].')
+    out.append('Definition handler_phase_table : list (string * xphase) := [%s].' % '; '.join('("%s", %s)' % kv for kv in table))
+    out.append('Definition handler_fallback_enclosing : bool := %s.' % ('true' if fallback else 'false'))
     # the finite obligations, re-proved against the regenerated table on every run
     out.append('''
 Lemma order_apis_guarded : forallb (fun name => order_api_guarded api_phases name) order_apis = true.
@@ -89,5 +126,11 @@ Proof. split; reflexivity. Qed.
 Lemma event_split_ok : event_split_brackets event_split = true.
 Proof. vm_compute. reflexivity. Qed.
 Lemma scheduled_may_order : forallb (fun name => api_allows api_phases name XScheduled) order_apis = true.
+Proof. vm_compute. reflexivity. Qed.
+Lemma handler_phases_ok : handlers_follow_split event_split handler_phase_table handler_fallback_enclosing = true.
+Proof. vm_compute. reflexivity. Qed.
+Lemma handlers_cannot_order_when_closed :
+  forallb (fun name => forallb (fun ev => negb (api_allows api_phases name (handler_phase handler_phase_table handler_fallback_enclosing ev XGlobal)))
+                               closed_phase_events) (order_apis ++ flow_apis) = true.
 Proof. vm_compute. reflexivity. Qed.''')
-    return '\n'.join(out) + '\n', ['order_apis_guarded', 'flow_apis_guarded', 'registration_only_in_init', 'sched_phases_ok', 'event_split_ok', 'scheduled_may_order']
+    return '\n'.join(out) + '\n', ['order_apis_guarded', 'flow_apis_guarded', 'registration_only_in_init', 'sched_phases_ok', 'event_split_ok', 'scheduled_may_order', 'handler_phases_ok', 'handlers_cannot_order_when_closed']
